@@ -285,7 +285,13 @@ class Poly:
         if not self.t:
             return "0"
         out = []
-        for k, v in sorted(self.t.items(), key=_key):
+        shown = self
+        if any(a[0] == 'Sum' for k in self.t for a, _ in k):
+            try:
+                shown = fold_means(self)          # readability only: |A|^-1 * Sum[A](q) is printed Mean[A](q)
+            except Exception:
+                shown = self
+        for k, v in sorted(shown.t.items(), key=_key):
             mon = "*".join(fmt_atom(a) + (f"^{e}" if e != 1 else "") for a, e in k)
             c = str(v) if v.denominator == 1 else f"({v})"
             if mon and v == 1:
@@ -954,7 +960,7 @@ def _norm_index(i):
 def to_at(x):
     if isinstance(x, AT):
         return x
-    if isinstance(x, (int, float, Fraction, Poly, Sym, np.integer, np.floating)):
+    if isinstance(x, (int, float, Fraction, Poly, Sym, SymDim, np.integer, np.floating)):
         return AT((), _box(lift(x)))
     if isinstance(x, (list, tuple)):
         items = [to_at(i) for i in x]
@@ -1211,7 +1217,11 @@ def _reduce(a, axis, kind):
 
 
 def bind(kind, ax, p):
-    """linear binder over the symbolic axis `ax`, factoring out what does not depend on it"""
+    """linear binder over the symbolic axis `ax`, factoring out what does not depend on it.
+    One normal form: a mean over a named axis is the sum over it divided by its extent (so that `mean(x)` and `sum(x) / n`,
+    n = x.shape[0], are the same polynomial)"""
+    if kind == 'Mean':
+        return bind('Sum', ax, p) * (SymDim(ax).poly() ** -1)
     res = Poly()
     for k, v in p.t.items():
         ind = tuple((a, e) for a, e in k if ax not in atom_deps(a))
@@ -1230,6 +1240,60 @@ def bind(kind, ax, p):
             else:
                 inner = Poly({dep: Fraction(1)})
             res = res + Poly({ind: v}) * Poly.atom((kind, axes, inner))
+    return res
+
+
+def fold_means(p):
+    """presentation / comparison form: |A|^-1 ... * Sum[A, ...](q) is written Mean[A, ...](q) (recursively); the inverse of the
+    normal form of `bind`"""
+    res = Poly()
+    for k, v in p.t.items():
+        exps = {a: e for a, e in k}
+        sums = sorted((a for a in exps if a[0] == 'Sum' and exps[a] >= 1), key=_key)
+        mon = Poly.const(v)
+        for a in sums:
+            e = exps[a]
+            ks = [('K', ax) for ax in a[1]]
+            inner_src = a[2]
+            # extents that `bind` factored out of an inner sum (Mean[t]((Mean[x] u)^2) is stored as |x|^-2 |t|^-1 Sum[t](Sum[x](u)^2))
+            # are moved back inside when every monomial of the inner polynomial wants the same ones
+            if e == 1:
+                wants = []
+                for k2 in inner_src.t:
+                    ex2 = {b: f_ for b, f_ in k2}
+                    w_ = {}
+                    for b, f_ in ex2.items():
+                        if b[0] == 'Sum' and f_ >= 1:
+                            for ax in b[1]:
+                                w_[('K', ax)] = w_.get(('K', ax), 0) + f_
+                    for kb in list(w_):
+                        w_[kb] += min(0, ex2.get(kb, 0))
+                        if w_[kb] <= 0:
+                            del w_[kb]
+                    wants.append(w_)
+                if wants and wants[0] and all(w_ == wants[0] for w_ in wants) and \
+                        all(exps.get(kb, 0) <= -n_ - (1 if kb in ks else 0) for kb, n_ in wants[0].items()):
+                    fac = Poly.const(1)
+                    for kb, n_ in wants[0].items():
+                        exps[kb] += n_
+                        fac = fac * Poly.atom(kb) ** (-n_)
+                    inner_src = inner_src * fac
+            inner = fold_means(inner_src)
+            if all(exps.get(ka, 0) <= -e for ka in ks):
+                for ka in ks:
+                    exps[ka] += e
+                mon = mon * Poly.atom(('Mean', a[1], inner)) ** e
+            else:
+                mon = mon * Poly.atom(('Sum', a[1], inner)) ** e
+            del exps[a]
+        for a, e in exps.items():
+            if e == 0:
+                continue
+            if a[0] in ('Abs', 'Inv', 'Sqrt'):
+                a = (a[0], fold_means(a[1]))
+            b = Poly.atom(a)
+            mon = mon * (b ** e if e > 0 else Poly.const(1) / (b ** (-e)))
+        res = res + mon
     return res
 
 
@@ -1461,11 +1525,6 @@ def jnp_reshape(a, shape):
 
 
 AXIS_EXTENT = {}      # name of a count axis -> the polynomial it was named after
-
-
-def axis_extent(name):
-    """extent of a named axis as a polynomial"""
-    return AXIS_EXTENT.get(name, Poly.atom(('K', name)))
 
 
 def _as_count(r):
